@@ -122,6 +122,9 @@ def run_case(case):
         kind = case["kind"]
         reason = rng.choice(REASONS)
         rclass = REASONS.index(reason)
+        if case["seed"].endswith("7") and kind in ("push", "pull") and rclass == 6:
+            reason = b"L" * 70000        # a failure message longer than any FileSync data record (and than a small device's maxdata): still the failure's reason
+            stats["very_long_reasons"] = 1
         plan.split_mode = rng.choice(["whole", "whole", "random", "bytes1" if len(reason) < 64 else "random"])
         # a slow device: its reply comes in small WRTEs 0.4 s apart; every single wait stays below the 1 s limits, the whole failure record takes longer
         slow_dev = kind in ("push", "pull") and not slow_send and len(reason) < 64 and rng.random() < 0.2
